@@ -15,10 +15,12 @@ Oracle (independent of the model), on the stabilised dump:
     and not the primary; every further listed owner is live (and, per the last capture, reported data);
   * no member owns more partitions than the ring's bound;
   * every member maps a key to the same partition and owner."""
+import math
+
 from streams.cluster import T0, hx
 
 HEADER = 3
-REQUIRED_SHAPES = ["join", "leave", "coordinator_left", "rejoin_same_address", "previous_owner_listed", "previous_owner_pruned",
+REQUIRED_SHAPES = ["load_bound_checked", "load_factor_configured", "join", "leave", "coordinator_left", "rejoin_same_address", "previous_owner_listed", "previous_owner_pruned",
                    "fill_compared", "stable_dump", "client_table", "backups_checked", "replica_shortage", "same_owner_everywhere"]
 
 
@@ -165,6 +167,21 @@ class Oracle:
                     self.hit("backups_checked")
                     if len(cur) != k or len(set(cur)) != k or owners[-1] in cur:
                         return "partition %d: current backup owners %s (of %s), primary %s, expected %d distinct live members other than the primary" % (pi, cur, backups, owners[-1], k)
+            # the bound the CONFIGURED load factor allows (buraksezer/consistent: ceil(float(P / N) * Load)), against the
+            # primary owners listed in the table itself
+            lf = int(self.cfg.get("lf100", 125)) / 100.0
+            P = len(table.split("~"))
+            bound = math.ceil(float(P // N) * lf) if N else 0
+            owned = {}
+            for row in table.split("~"):
+                o = mems(row.split("/")[0])[-1]
+                owned[o] = owned.get(o, 0) + 1
+            self.hit("load_bound_checked")
+            if lf != 1.25:
+                self.hit("load_factor_configured")
+            for o, c in sorted(owned.items()):
+                if c > bound:
+                    return "member %s is the primary owner of %d of %d partitions, load factor %.2f with %d members allows at most %d" % (o, c, P, lf, N, bound)
             kv = views[oldest]
             if "loads" in kv:
                 avg = int(kv["avg"])
@@ -201,11 +218,12 @@ class Gen:
     def episode(self, orc, nops):
         r = self.rng
         R = r.choice([1, 2, 2, 3])
-        parts = r.choice([5, 7, 11])
+        parts = r.choice([5, 7, 11, 31, 47])
+        lf = r.choice([0, 0, 105, 110, 150])
         n0 = r.choice([1, 2, 3])
         yield "watchdog 300s"
         yield "clock 0"
-        yield "c.new n=%d r=%d w=1 rq=1 parts=%d tsize=4096" % (n0, R, parts)
+        yield "c.new n=%d r=%d w=1 rq=1 parts=%d tsize=4096%s" % (n0, R, parts, " lf100=%d" % lf if lf else "")
         alive = list(range(n0))
         stopped = []
         total = n0
